@@ -15,7 +15,7 @@ def run(ctx):
     with quiet_stderr():
         for i in range(ctx.pick(5, 60)):
             cc, ops = fs_drv.make_job(rng, ctx.seed * 977 + i, restart=(i % 2 == 1))
-            s = fs_drv.stepped(env, drf, cc, ops, "step%d%s" % (i, "-restart" if i % 2 == 1 else ""), rng)
+            s = fs_drv.stepped(fc.env_for(env, i), drf, cc, ops, "step%d%s" % (i, "-restart" if i % 2 == 1 else ""), rng)
             scen.append(s)
             n = s["nops"]
             # a real SIGKILL while the writer is blocked before operation k: always some inside the creation of the channel
@@ -28,7 +28,7 @@ def run(ctx):
             for kn, k in enumerate(ks):
                 # after two of three kills a new recorder process is started on the tree the dead one left behind
                 rs = [None, "same", "go-on", "same", "later", "same"][(kn + i) % 6]
-                scen.append(fs_drv.stepped(env, drf, cc, ops, "kill%d@%d%s" % (i, k, "+restart-" + rs if rs else ""), rng, kill_at=k,
+                scen.append(fs_drv.stepped(fc.env_for(env, i), drf, cc, ops, "kill%d@%d%s" % (i, k, "+restart-" + rs if rs else ""), rng, kill_at=k,
                                            every=ctx.pick(4, 2), restart=rs))
                 nkills += 1
     fc.account(ctx, scen, "recordings (gapped / continuous / compressed, multi-file writes, blocks, subdirectory change) stepped one "
